@@ -154,6 +154,7 @@ func runC13(c *fw.Ctx) {
 	}
 	c.Cases("pinned", len(pins), true, func(i int, r *rng.R) { c13Case(c, r, pins[i]) })
 	historyCases(c, "history", 600, 60000, probeNative)
+	c.Cases("shrink-and-grow", c.N(900, 90000), false, func(i int, r *rng.R) { c13ShrinkGrow(c, i, r) })
 	// typed container flavours (with nil entries) inside native trees
 	c.Cases("typed-flavours", 6, true, func(i int, r *rng.R) {
 		o1, l1 := at.NewObject("x", 1), at.NewList(1)
@@ -435,7 +436,7 @@ func c13Case(c *fw.Ctx, r *rng.R, tree *spec.Spec) {
 		c.Distinct(tree.Canon())
 		c.Max("max_depth", int64(tree.Depth()))
 		real := drive.Build(r, tree)
-		if r != nil && r.Chance(1, 6) {
+		if r != nil && r.Chance(1, 4) {
 			// a derived structure (user type embedding a List / Object) somewhere inside: it is a container like any other
 			if snap, err := drive.Walk(real); err == nil {
 				node, _, _ := pickContainer(r, snap)
@@ -444,6 +445,12 @@ func c13Case(c *fw.Ctx, r *rng.R, tree *spec.Spec) {
 				if r.Bool() {
 					dspec = spec.ListV(spec.IntV(7), spec.ObjV("k", spec.NilV()))
 					d = NewDDList(7, at.NewObject("k", nil))
+				}
+				if r.Bool() {
+					// handed over by one of the values it embeds (`parent.Set("k", d.Object)`): what is stored is then not the
+					// registered pointer, Get resolves it, and the one-level snapshots hold what Get returns
+					d = drive.Embedded(d, r.Intn(3))
+					c.Count("trees_with_embedded_values_of_derived_structures")
 				}
 				ok := false
 				drive.Protect(func() {
@@ -521,6 +528,12 @@ func c13Case(c *fw.Ctx, r *rng.R, tree *spec.Spec) {
 		// 5. Dict()/Slice(): one-level snapshots holding exactly what Get returns; not aliased in either direction
 		real2 := drive.Build(r, tree)
 		c13OneLevel(c, r, real2, tree, in)
+		if r != nil && r.Chance(1, 3) {
+			// the same for a container whose stored references are not what Get returns: values embedded in derived structures
+			// (stored instead of the structure itself, or wrapped into one after having been stored)
+			holder, what := c13EmbeddedHolder(r)
+			c13OneLevel(c, r, holder, tree, func() string { return what })
+		}
 		if c.WantSample() && tree.Size() > 4 && tree.Size() < 16 {
 			c.Sample(map[string]any{"tree": tree.Canon(), "native_export": fmt.Sprintf("%v", keep)})
 		}
@@ -645,4 +658,359 @@ func selfC13(s *fw.SelfCheck) {
 	c := deepCopyNative(n)
 	scribble(n)
 	s.Expect(reflect.DeepEqual(c, []any{[]any{1}}), "deep copy aliases its source")
+}
+
+// c13ShrinkGrow: a list / object comes out of one of the constructors or deriving operations (a container or native value
+// repeated by NewListOf among them), optionally sits inside a parent, and is then taken apart and refilled call by call.
+// After every call the native export of the container and of its parent must be plain Go values equal to the current
+// content, whatever the container remembers about what it used to hold.
+func c13ShrinkGrow(c *fw.Ctx, i int, r *rng.R) {
+	var trace []string
+	in := func() string {
+		out := ""
+		for k, t := range trace {
+			out += fmt.Sprintf("%d. %s\n", k+1, t)
+		}
+		return out
+	}
+	say := func(f string, a ...any) { trace = append(trace, fmt.Sprintf(f, a...)) }
+	elem := func() *spec.Spec {
+		switch r.Intn(4) {
+		case 0:
+			return spec.GenScalar(r)
+		case 1:
+			return spec.ListV(spec.IntV(r.Intn(9)))
+		case 2:
+			return spec.ObjV("k", spec.IntV(r.Intn(9)))
+		}
+		return spec.GenTree(r, spec.Opts{MaxDepth: 2, MaxWidth: 2, SafeKeys: true})
+	}
+	arg := func(e *spec.Spec) any {
+		if (e.K == spec.List || e.K == spec.Obj) && r.Bool() {
+			return drive.Build(r, e)
+		}
+		return drive.Native(e)
+	}
+	scalar := func() *spec.Spec { return spec.IntV(100 + r.Intn(9)) }
+	guard(c, in, func() {
+		if i%2 == 0 {
+			var l at.List
+			var content []*spec.Spec
+			n := r.Range(1, 5)
+			switch (i / 2) % 7 {
+			case 0, 1:
+				e := []*spec.Spec{spec.ListV(spec.IntV(1)), spec.ObjV("k", spec.IntV(1)), elem()}[r.Intn(3)]
+				for k := 0; k < n; k++ {
+					content = append(content, e)
+				}
+				l = at.NewListOf(arg(e), n)
+				say("l = NewListOf(%s, %d)", e.Canon(), n)
+			case 2:
+				args := make([]any, n)
+				for k := range args {
+					e := elem()
+					content = append(content, e)
+					args[k] = arg(e)
+				}
+				l = at.NewListFrom(args)
+				say("l = NewListFrom(%s)", spec.ListV(content...).Canon())
+			case 3:
+				args := make([]any, n)
+				for k := range args {
+					e := elem()
+					content = append(content, e)
+					args[k] = arg(e)
+				}
+				l = at.NewList(args...)
+				say("l = NewList(%s...)", spec.ListV(content...).Canon())
+			case 4:
+				a, b := at.NewList(), at.NewList()
+				for k := 0; k < n; k++ {
+					e := elem()
+					content = append(content, e)
+					if k < n/2 {
+						a.Add(arg(e))
+					} else {
+						b.Add(arg(e))
+					}
+				}
+				l = a.Concat(b)
+				say("l = Concat of two lists: %s", spec.ListV(content...).Canon())
+			case 5:
+				src := at.NewList("pre")
+				for k := 0; k < n; k++ {
+					e := elem()
+					content = append(content, e)
+					src.Add(arg(e))
+				}
+				l = src.SubList(1, 0)
+				say("l = SubList(1, 0) of [\"pre\", %s...]", spec.ListV(content...).Canon())
+			default:
+				src := at.NewList()
+				for k := 0; k < n; k++ {
+					e := elem()
+					content = append(content, e)
+					src.Add(arg(e))
+				}
+				l = src.Clone()
+				say("l = Clone of %s", spec.ListV(content...).Canon())
+			}
+			var parent any
+			switch r.Intn(3) {
+			case 0:
+				parent = at.NewObject("p", l)
+				say("parent = NewObject(\"p\", l)")
+			case 1:
+				parent = at.NewList(0, l)
+				say("parent = NewList(0, l)")
+			}
+			check := func() bool {
+				want := spec.ListV(content...)
+				nat := l.NativeSlice()
+				if d := nativeDiff(nat, want, ""); d != "" {
+					c.Violate("export-differs-after-history", in(), "plain Go values equal to the current content "+spec.Trunc(want.Canon(), 400), d)
+					return false
+				}
+				if parent != nil {
+					wp := spec.ObjV("p", want)
+					if _, isList := parent.(at.List); isList {
+						wp = spec.ListV(spec.IntV(0), want)
+					}
+					if d := nativeDiff(nativeOf(parent), wp, ""); d != "" {
+						c.Violate("export-differs-after-history", in(), "parent export: plain Go values equal to the current content "+spec.Trunc(wp.Canon(), 400), d)
+						return false
+					}
+				}
+				scribble(nat)
+				if d := nativeDiff(l.NativeSlice(), want, ""); d != "" {
+					c.Violate("export-aliases-container", in(), "the container is unchanged after its export was overwritten", d)
+					return false
+				}
+				c.Count("exports_judged_after_a_call")
+				return true
+			}
+			if !check() {
+				return
+			}
+			for steps := r.Range(2, 9); steps > 0; steps-- {
+				ln := len(content)
+				switch op := r.Intn(9); {
+				case op == 0 && ln > 0:
+					l.Pop()
+					content = content[:ln-1]
+					say("l.Pop()")
+				case op <= 2 && ln > 0:
+					idx := []int{0, ln - 1, r.Intn(ln)}[r.Intn(3)]
+					l.Delete(idx)
+					content = append(content[:idx:idx], content[idx+1:]...)
+					say("l.Delete(%d)", idx)
+				case op == 3 && ln > 0:
+					idx := r.Intn(ln)
+					v := scalar()
+					l.Replace(idx, v.I)
+					content = append(append(content[:idx:idx], v), content[idx+1:]...)
+					say("l.Replace(%d, %d)", idx, v.I)
+				case op == 4 && ln > 0:
+					idx := r.Intn(ln)
+					l.UnsetTF("#" + strconv.Itoa(idx))
+					content = append(content[:idx:idx], content[idx+1:]...)
+					say("l.UnsetTF(#%d)", idx)
+				case op == 5 && ln > 0:
+					idx := r.Intn(ln)
+					v := scalar()
+					l.SetTF("#"+strconv.Itoa(idx), v.I)
+					content = append(append(content[:idx:idx], v), content[idx+1:]...)
+					say("l.SetTF(#%d, %d)", idx, v.I)
+				case op == 6:
+					e := elem()
+					l.Add(arg(e))
+					content = append(content[:ln:ln], e)
+					say("l.Add(%s)", e.Canon())
+				case op == 7:
+					e := elem()
+					idx := r.Intn(ln + 1)
+					l.Insert(idx, arg(e))
+					content = append(append(content[:idx:idx], e), content[idx:]...)
+					say("l.Insert(%d, %s)", idx, e.Canon())
+				case op == 8 && r.Chance(1, 3):
+					l.Clear()
+					content = nil
+					say("l.Clear()")
+				default:
+					continue
+				}
+				if !check() {
+					return
+				}
+			}
+			c.Distinct(in())
+			return
+		}
+		// objects
+		var o at.Object
+		keys := []string{}
+		vals := map[string]*spec.Spec{}
+		n := r.Range(1, 5)
+		pairs := func() (ps []any, m map[string]any) {
+			m = map[string]any{}
+			for k := 0; k < n; k++ {
+				key := "k" + strconv.Itoa(k)
+				e := elem()
+				keys = append(keys, key)
+				vals[key] = e
+				a := arg(e)
+				ps = append(ps, key, a)
+				m[key] = a
+			}
+			return
+		}
+		switch (i / 2) % 5 {
+		case 0:
+			ps, _ := pairs()
+			o = at.NewObject(ps...)
+			say("o = NewObject(...)")
+		case 1:
+			_, m := pairs()
+			o = at.NewObjectFrom(m)
+			say("o = NewObjectFrom(...)")
+		case 2:
+			ps, _ := pairs()
+			half := (len(ps) / 4) * 2
+			o = at.NewObject(ps[:half]...).Merge(at.NewObject(ps[half:]...))
+			say("o = Merge of two objects")
+		case 3:
+			ps, _ := pairs()
+			src := at.NewObject(ps...).Set("other", 1)
+			o = src.Pluck(keys...)
+			say("o = Pluck(all keys but one)")
+		default:
+			ps, _ := pairs()
+			o = at.NewObject(ps...).Clone()
+			say("o = Clone")
+		}
+		wantSpec := func() *spec.Spec {
+			kv := []any{}
+			for _, k := range keys {
+				kv = append(kv, k, vals[k])
+			}
+			return spec.ObjV(kv...)
+		}
+		say("content %s", wantSpec().Canon())
+		var parent any
+		switch r.Intn(3) {
+		case 0:
+			parent = at.NewObject("p", o)
+			say("parent = NewObject(\"p\", o)")
+		case 1:
+			parent = at.NewList(0, o)
+			say("parent = NewList(0, o)")
+		}
+		check := func() bool {
+			want := wantSpec()
+			nat := o.NativeDict()
+			if d := nativeDiff(nat, want, ""); d != "" {
+				c.Violate("export-differs-after-history", in(), "plain Go values equal to the current content "+spec.Trunc(want.Canon(), 400), d)
+				return false
+			}
+			if parent != nil {
+				wp := spec.ObjV("p", want)
+				if _, isList := parent.(at.List); isList {
+					wp = spec.ListV(spec.IntV(0), want)
+				}
+				if d := nativeDiff(nativeOf(parent), wp, ""); d != "" {
+					c.Violate("export-differs-after-history", in(), "parent export: plain Go values equal to the current content "+spec.Trunc(wp.Canon(), 400), d)
+					return false
+				}
+			}
+			scribble(nat)
+			if d := nativeDiff(o.NativeDict(), want, ""); d != "" {
+				c.Violate("export-aliases-container", in(), "the container is unchanged after its export was overwritten", d)
+				return false
+			}
+			c.Count("exports_judged_after_a_call")
+			return true
+		}
+		if !check() {
+			return
+		}
+		drop := func(k string) {
+			delete(vals, k)
+			for j, x := range keys {
+				if x == k {
+					keys = append(keys[:j:j], keys[j+1:]...)
+					break
+				}
+			}
+		}
+		put := func(k string, e *spec.Spec) {
+			if _, ok := vals[k]; !ok {
+				keys = append(keys, k)
+			}
+			vals[k] = e
+		}
+		for steps := r.Range(2, 9); steps > 0; steps-- {
+			switch op := r.Intn(7); {
+			case op <= 1 && len(keys) > 0:
+				k := keys[r.Intn(len(keys))]
+				o.Unset(k)
+				drop(k)
+				say("o.Unset(%q)", k)
+			case op == 2 && len(keys) > 0:
+				k := keys[r.Intn(len(keys))]
+				o.UnsetTF("." + k)
+				drop(k)
+				say("o.UnsetTF(.%s)", k)
+			case op == 3 && len(keys) > 0:
+				k := keys[r.Intn(len(keys))]
+				v := scalar()
+				if r.Bool() {
+					o.Set(k, v.I)
+				} else {
+					o.SetTF("."+k, v.I)
+				}
+				put(k, v)
+				say("o.Set / SetTF(%q, %d)", k, v.I)
+			case op == 4 || op == 5:
+				k := "n" + strconv.Itoa(r.Intn(4))
+				e := elem()
+				o.Set(k, arg(e))
+				put(k, e)
+				say("o.Set(%q, %s)", k, e.Canon())
+			case op == 6 && r.Chance(1, 3):
+				o.Clear()
+				keys, vals = nil, map[string]*spec.Spec{}
+				say("o.Clear()")
+			default:
+				continue
+			}
+			if !check() {
+				return
+			}
+		}
+		c.Distinct(in())
+	})
+}
+
+// c13EmbeddedHolder: a list / object holding, next to scalars and an ordinary derived structure, library containers that
+// are embedded in a derived structure: Get resolves the registered pointer, the stored reference is another one.
+func c13EmbeddedHolder(r *rng.R) (any, string) {
+	d1 := NewDList(1, 2)
+	d2 := NewDDObject("k", 1)
+	d3 := NewDDDList("x")
+	late := at.NewObject("late", true)
+	lateL := at.NewList("late")
+	var holder any
+	what := ""
+	if r.Bool() {
+		holder = at.NewList(0, d1.List, "s", d2.DObject.Object, d2.DObject, NewDObject("plainly", "derived"), d3.DDList, late, lateL, nil)
+		what = "list [0, d1.List (embedded in a DList), \"s\", d2.DObject.Object, d2.DObject (embedded in a DDObject), a DObject, d3.DDList (embedded in a DDDList), an object and a list wrapped into derived structures after they were stored, nil]"
+	} else {
+		holder = at.NewObject("a", d1.List, "b", 1.5, "c", d2.DObject.Object, "d", d2.DObject, "e", NewDDList(7), "f", d3.DDList.DList, "g", late, "h", lateL)
+		what = "object {a: d1.List (embedded in a DList), b: 1.5, c: d2.DObject.Object, d: d2.DObject (embedded in a DDObject), e: a DDList, f: d3.DDList.DList (embedded in a DDDList), g / h: an object and a list wrapped into derived structures after they were stored}"
+	}
+	wl := &DObject{Object: late, tag: "late"}
+	late.Init(wl)
+	wll := &DList{List: lateL, tag: "late"}
+	lateL.Init(wll)
+	return holder, what
 }
